@@ -1,6 +1,7 @@
 """C02 - accepted language and nesting are those of gherkin.berp; same machine as the siblings."""
 from . import line_rules as lr
-from . import parser_rules as pr, builder_rules as br
+from . import misc_rules as ms
+from . import parser_rules as pr, builder_rules as br, matcher_rules as mr
 
 META = {
     "level": "translation_validation",
@@ -28,3 +29,10 @@ def run(rep):
     br.rule_rw(rep, "C02.rw", "C02.flow")
     # the lines looked past are replayed in document order: the machine above reads them in the order the scanner produced them
     pr.rule_queue(rep, "C02.queue")
+    # what "its sequence of line tokens" is: the classification of lines the grammar is stated over
+    mr.rule_roles(rep, "C02.roles", "C02.text", want=("roles",))
+    mr.rule_token_table(rep, "C02.kinds", "C02.col")
+    mr.rule_docstring_fsm(rep, "C02.fsm")
+    mr.rule_match_result(rep, "C02.result")
+    # no hidden state: what the property promises for one use must hold for every later use as well
+    ms.rule_stateless(rep, "C02")
